@@ -60,7 +60,7 @@ pub fn generate(rng: &mut Rng, fam: Family) -> Value {
             14 => json!({"t": "recursive", "c": rng.below(700) as i64 - 300, "depth": rng.range(1, 3), "dedup": rng.chance(1, 3)}),
             0 => json!({"t": "nlj", "jt": *rng.pick(&["inner", "left", "right", "full", "semi", "anti", "rsemi", "ranti"])}),
             1 => json!({"t": "cross"}),
-            2 => json!({"t": "notin"}),
+            2 | 13 => json!({"t": "notin"}),
             3 => json!({"t": "mark", "residual": rng.chance(1, 3), "c": rng.below(700) as i64 - 300, "neg": rng.chance(1, 3)}),
             4 => json!({"t": "setop", "op": *rng.pick(&["intersect", "except"]), "cols": *rng.pick(&["k", "ks", "s"])}),
             _ => json!({
